@@ -9,7 +9,10 @@ BUILDERS = {"Room::add_admin_user": "admins", "Authorisation::add_user": "users"
 # the three construction paths
 LIVE = ["RoomAuthorisations::validate_room_mutation", "RoomAuthorisations::validate_authorisation_mutation"]
 RELOAD = ["RoomAuthorisations::load_json", "room::load_auth_from_json"]
-IMPORT = ["room_node::RoomNode::parse", "room_node::AuthorisationNode::parse", "room_node::prepare_room_with_history", "room_node::prepare_auth_with_history"]
+IMPORT = ["room_node::RoomNode::parse", "room_node::AuthorisationNode::parse", "room_node::prepare_room_with_history", "room_node::prepare_auth_with_history",
+          # first import of a room: the administrator entries are replayed in date order into a scratch history that is only
+          # consulted (C07-R5) and never installed; the room that is installed comes from RoomNode::parse
+          "room_node::prepare_new_room"]
 BOOT = ["RoomAuthorisations::create_system_room"]
 
 
